@@ -132,7 +132,28 @@ def _go_frame_rename(A):
     return g.rename('other').to_frame(), (lambda: g.__setitem__('NEW', A['i8b'])), 'NEW', (lambda c: c.columns)
 
 
-GO_SEEDS = {'Index(IndexGO)': _go_index, 'FrameGO.to_frame()': _go_frame_to_frame, 'Frame(FrameGO)': _go_frame_ctor, 'Series(index=FrameGO.columns)': _go_columns_as_index,
+def _go_index_items(A):
+    # a static hierarchy assembled from grow-only leaf indices; a leaf then grows
+    leaf_a, leaf_b = sf.IndexGO((1, 2)), sf.IndexGO((1, 3))
+    return sf.IndexHierarchy.from_index_items((('a', leaf_a), ('b', leaf_b))), (lambda: leaf_a.append(9)), ('a', 9), (lambda c: c)
+
+
+def _go_concat_items(A):
+    # a static Frame concatenated (axis 1, labelled by key) from grow-only Frames; a part then grows
+    g1 = sf.FrameGO.from_items((('p', A['i8']), ('q', A['f8'])), index=A['lab'], name='g1')
+    g2 = sf.FrameGO.from_items((('p', A['i8b']),), index=A['lab'], name='g2')
+    return sf.Frame.from_concat_items((('x', g1), ('y', g2)), axis=1), (lambda: g1.__setitem__('NEW', A['i8b'])), ('x', 'NEW'), (lambda c: c.columns)
+
+
+def _go_series_concat_items(A):
+    s1 = sf.Series(A['i8'], index=sf.IndexGO(A['lab']), name='s1')
+    go_ix = s1.index
+    s2 = sf.Series(A['f8'], index=A['lab'], name='s2')
+    return sf.Series.from_concat_items((('x', s1), ('y', s2))), (lambda: go_ix.append('NEW') if hasattr(go_ix, 'append') else None), ('x', 'NEW'), (lambda c: c.index)
+
+
+GO_SEEDS = {'IndexHierarchy.from_index_items(IndexGO)': _go_index_items, 'Frame.from_concat_items(FrameGO)': _go_concat_items,
+            'Series.from_concat_items(index=IndexGO)': _go_series_concat_items, 'Index(IndexGO)': _go_index, 'FrameGO.to_frame()': _go_frame_to_frame, 'Frame(FrameGO)': _go_frame_ctor, 'Series(index=FrameGO.columns)': _go_columns_as_index,
             'IndexHierarchy(IndexHierarchyGO)': _go_hier, 'FrameGO.rename().to_frame()': _go_frame_rename}
 
 
